@@ -36,9 +36,14 @@ Comp2 ==
     \cup {<<"MapKey", k>> \o c : k \in KeyKinds, c \in CompSmall}
     \cup {<<"Some">> \o c : c \in CompSmall}
 
+\* value FORMS of core/src/value.rs beyond scalars and serde/sval captures: fixed-size arrays of
+\* primitives, Options of primitives (From<Option<T>>), a borrowed fixed-size byte array
+FormShapes ==
+    {<<"Arr", x>> : x \in {"I64", "F64", "Str", "Bool", "U128", "NaN"}}
+    \cup {<<"Opt", x>> : x \in {"I64", "F64", "Str", "Bool", "U128"}} \cup {<<"OptNone">>, <<"BytesRef">>}
 UserShapes ==
     IF Tier = "small" THEN {<<"I64">>, <<"Str">>, <<"MapKey", "I64", "Str">>}
-    ELSE {<<a>> : a \in UserAtoms} \cup Comp1 \cup (IF Tier = "thorough" THEN Comp2 ELSE {})
+    ELSE {<<a>> : a \in UserAtoms} \cup Comp1 \cup FormShapes \cup (IF Tier = "thorough" THEN Comp2 ELSE {})
 
 \* well-known keys carry the shapes they are defined for (quantifier restriction: a
 \* well-known key with a foreign shape has no dedicated field to go to; the statement is
@@ -96,7 +101,9 @@ MetricHdr(agg, v) ==
     \o (IF agg = "none" THEN <<>> ELSE <<P("metric_agg", <<agg>>)>>)
     \o <<P("metric_value", v)>>
 Aggs == {"none", "AggCount", "AggSum", "AggLast"}
-MetricValues == {<<"I64">>, <<"F64">>, <<"Seq", "I64">>, <<"Seq", "F64">>, <<"NaN">>, <<"Inf">>}
+\* (integers beyond i64 are carried as the nearest double: a data point cannot be text)
+MetricValues == {<<"I64">>, <<"F64">>, <<"Seq", "I64">>, <<"Seq", "F64">>, <<"NaN">>, <<"Inf">>,
+                 <<"U64Big">>, <<"I128">>, <<"U128">>, <<"Arr", "F64">>}
 MainMetricHdrs == {MetricHdr("AggSum", <<"F64">>), MetricHdr("AggLast", <<"Seq", "F64">>)}
 
 BaseEvents ==
@@ -113,7 +120,16 @@ BaseEvents ==
               x \in Extents, h \in MainMetricHdrs, e \in ExtraSeqs}
 
 WithCarrier(e, c, n) ==
-    [kind |-> e.kind, extent |-> e.extent, props |-> e.props, carrier |-> c, split |-> n]
+    [kind |-> e.kind, extent |-> e.extent, props |-> e.props, carrier |-> c, split |-> n, tpl |-> "hole"]
+
+\* template forms: a plain hole `{a}` (everywhere else), a hole with a formatter, no hole at all
+TplEvents ==
+    IF Tier = "small" THEN {} ELSE
+    {[kind |-> h.kind, extent |-> h.extent, props |-> h.hdr \o e, carrier |-> "slice", split |-> Len(h.hdr \o e), tpl |-> t] :
+        h \in {[kind |-> "log", extent |-> "point", hdr |-> <<>>], [kind |-> "span", extent |-> "range", hdr |-> SpanHdr],
+               [kind |-> "metric", extent |-> "point", hdr |-> MetricHdr("AggSum", <<"F64">>)]},
+        t \in {"fmt_hole", "literal"},
+        e \in LiteExtras \cup {<<P("a", s)>> : s \in {<<"Str">>, <<"F64">>, <<"Bool">>, <<"U128">>, <<"Seq", "F64">>, <<"Reent">>, <<"None">>}}}
 
 \* properties concatenated across the two sides of an And / across event and ambient context
 CarrierCore ==
@@ -143,7 +159,7 @@ CarrierEvents ==
     \ {e \in {WithCarrier([kind |-> h.kind, extent |-> h.extent, props |-> h.hdr \o sd[1] \o sd[2]], "ambient", Len(h.hdr) + Len(sd[1])) :
                   h \in CarrierHdrs, sd \in {x \in CarrierSides : ~AmbientOK(x[2])}} : TRUE}
 
-MC_Events == {WithCarrier(e, "slice", Len(e.props)) : e \in BaseEvents} \cup CarrierEvents
+MC_Events == {WithCarrier(e, "slice", Len(e.props)) : e \in BaseEvents} \cup CarrierEvents \cup TplEvents
 
 ASSUME PrintT(<<"TABLES", ToJson(Tables)>>)
 ASSUME PrintT(<<"NEVENTS", Cardinality(MC_Events)>>)
